@@ -311,7 +311,36 @@ func ruleC12StateCAS(c *Ctx) {
 		if _, ok := constInt(v); ok {
 			return true
 		}
-		// a parameter of a transition helper (setLock(from, to)): a named state at every call site
+		// a parameter of a transition helper (setLock(from, to)): a named state at every call site — also when the
+		// transition sits in a closure that captured the parameter (a retry loop that takes the attempt as a function)
+		if fv, isFV := v.(*ssa.FreeVar); isFV {
+			fn := fv.Parent()
+			for i, x := range fn.FreeVars {
+				if x != fv || fn.Parent() == nil {
+					continue
+				}
+				for _, in := range instrsOf(fn.Parent()) {
+					if mc, ok := in.(*ssa.MakeClosure); ok && mc.Fn == ssa.Value(fn) && i < len(mc.Bindings) {
+						b := mc.Bindings[i]
+						// a captured parameter is bound by its cell: the cell holds the parameter
+						if al, ok := b.(*ssa.Alloc); ok {
+							for _, r := range referrers(al) {
+								if st, ok := r.(*ssa.Store); ok && st.Addr == ssa.Value(al) {
+									return isConstArg(st.Val)
+								}
+							}
+						}
+						return isConstArg(b)
+					}
+				}
+			}
+			return false
+		}
+		if u, isLoad := v.(*ssa.UnOp); isLoad && u.Op == token.MUL {
+			if _, isFV := u.X.(*ssa.FreeVar); isFV {
+				return isConstArg(u.X) // the captured cell of a parameter
+			}
+		}
 		p, ok := v.(*ssa.Parameter)
 		if !ok {
 			return false
@@ -406,5 +435,286 @@ func ruleC12StateCAS(c *Ctx) {
 				c.S.Bad("R-C12-state-cas", key, c.Pos(call.Pos()), fmt.Sprintf("%s %s: when two goroutines check at the same time, one of them restores CHECKING over the other's restored state, and the state machine is stuck — the blocked command can never end and every later check spins", fnName(fn), what))
 			}
 		}
+	}
+}
+
+// ---------------------------------------------------------------- R-pool-escape
+
+const textPoolEscape = "R-pool-escape: an object handed back to a sync.Pool (Put, deferred or not) is not also returned to the caller of the same function, whole or as the slice it points to: the caller would write (to the socket) bytes that another goroutine's Get is already overwriting — replies of different connections mix"
+
+func rulePoolEscape(c *Ctx) {
+	c.S.Rule("R-pool-escape", textPoolEscape, 0)
+	n := 0
+	for _, fn := range c.SrcFuncs() {
+		k := 0
+		for _, in := range instrsOf(fn) {
+			ci, ok := in.(ssa.CallInstruction)
+			if !ok || fullCalleeName(ci) != "(*sync.Pool).Put" || len(ci.Common().Args) < 2 {
+				continue
+			}
+			k++
+			n++
+			key := fmt.Sprintf("%s:put#%d", fnName(fn), k)
+			obj := stripValue(ci.Common().Args[1])
+			derived := map[ssa.Value]bool{obj: true}
+			for changed := true; changed; {
+				changed = false
+				for _, in2 := range instrsOf(fn) {
+					v, ok := in2.(ssa.Value)
+					if !ok || derived[v] {
+						continue
+					}
+					d := false
+					switch x := in2.(type) {
+					case *ssa.UnOp:
+						d = x.Op == token.MUL && derived[x.X]
+						// a local cell (a result spilled because of the defer) that holds a derived value
+						if al, isAl := x.X.(*ssa.Alloc); isAl && x.Op == token.MUL && !d {
+							for _, r := range referrers(al) {
+								if st, ok := r.(*ssa.Store); ok && st.Addr == ssa.Value(al) && derived[st.Val] {
+									d = true
+								}
+							}
+						}
+					case *ssa.Slice:
+						d = derived[x.X]
+					case *ssa.Phi:
+						for _, e := range x.Edges {
+							d = d || derived[e]
+						}
+					case *ssa.ChangeType:
+						d = derived[x.X]
+					case *ssa.MakeInterface:
+						d = derived[x.X]
+					case *ssa.TypeAssert:
+						d = derived[x.X]
+					case *ssa.Call:
+						if b, isB := x.Call.Value.(*ssa.Builtin); isB && b.Name() == "append" && len(x.Call.Args) > 0 {
+							d = derived[x.Call.Args[0]]
+						}
+					case *ssa.FieldAddr:
+						d = derived[x.X]
+					case *ssa.IndexAddr:
+						d = derived[x.X]
+					}
+					if d {
+						derived[v] = true
+						changed = true
+					}
+				}
+			}
+			escapes := ""
+			for _, b := range fn.Blocks {
+				if ret, ok := b.Instrs[len(b.Instrs)-1].(*ssa.Return); ok {
+					for _, r := range ret.Results {
+						if derived[r] || derived[stripValue(r)] {
+							escapes = c.Pos(ret.Pos())
+						}
+					}
+				}
+			}
+			if escapes != "" {
+				c.S.Bad("R-pool-escape", key, c.Pos(in.Pos()), fmt.Sprintf("%s puts an object back into a sync.Pool and returns it (or the slice it holds) to its caller at %s: while the caller still uses the bytes, the next Get hands them to another goroutine", fnName(fn), escapes))
+			} else {
+				c.S.OK("R-pool-escape", key, c.Pos(in.Pos()), "the pooled object does not outlive the function")
+			}
+		}
+	}
+	if n == 0 {
+		c.S.Trivial("R-pool-escape", "none", "-", "no sync.Pool is used")
+	}
+}
+
+// ---------------------------------------------------------------- R-C12-pending-reset
+
+const textPendingReset = "R-C12-pending-reset: the flag that limits unblock requests to one per capture (the CompareAndSwap 0→1 whose success guards the post to the mailbox) is set back to 0 by the function that drains the mailbox and ends the capture — on every path, whichever way the wait ended. If it is reset only where an unblock request was received, a request that collides with a timeout or a push leaves the flag set for ever and no later CLIENT UNBLOCK can end a blocking command of that connection"
+
+func ruleC12PendingReset(c *Ctx) {
+	c.S.Rule("R-C12-pending-reset", textPendingReset, 1)
+	fCh := c.Field("clientState", "unblockCh")
+	fBlocked := c.Field("clientState", "blocked")
+	if fCh == nil || fBlocked == nil {
+		c.S.Undecided("R-C12-pending-reset", "anchors", "-", "clientState.unblockCh / blocked not found")
+		return
+	}
+	atomicOn := func(call *ssa.Call) *types.Var {
+		if !strings.HasPrefix(fullCalleeName(call), "sync/atomic.") || len(call.Call.Args) == 0 {
+			return nil
+		}
+		if fa, ok := call.Call.Args[0].(*ssa.FieldAddr); ok {
+			return fieldOf(fa)
+		}
+		return nil
+	}
+	// the guard flag: a CAS(0,1) on a clientState field other than the state, in a function that posts to the mailbox
+	var flag *types.Var
+	for _, fn := range c.SrcFuncs() {
+		posts := false
+		for _, in := range instrsOf(fn) {
+			if s, ok := in.(*ssa.Send); ok {
+				if _, f := loadedField(s.Chan); f == fCh {
+					posts = true
+				}
+			}
+		}
+		if !posts {
+			continue
+		}
+		for _, in := range instrsOf(fn) {
+			if call, ok := in.(*ssa.Call); ok && strings.HasPrefix(fullCalleeName(call), "sync/atomic.CompareAndSwap") {
+				if f := atomicOn(call); f != nil && f != fBlocked && c.ownerName(f) == "clientState" {
+					flag = f
+				}
+			}
+		}
+	}
+	if flag == nil {
+		c.S.Trivial("R-C12-pending-reset", "none", "-", "posts to the mailbox are not limited by a pending flag")
+		return
+	}
+	// the release function: drains the mailbox (a select with default on it, possibly in a closure or helper method)
+	n := 0
+	for _, fn := range c.SrcFuncs() {
+		if fn.Parent() != nil || fn.Signature.Recv() == nil || !c.isPkgType(fn.Signature.Recv().Type(), "clientState") {
+			continue
+		}
+		drains := false
+		var scan func(f *ssa.Function, d int)
+		resets := map[*ssa.Function]bool{}
+		scan = func(f *ssa.Function, d int) {
+			if f == nil || f.Blocks == nil || d > 2 {
+				return
+			}
+			for _, g := range append([]*ssa.Function{f}, f.AnonFuncs...) {
+				for _, in := range instrsOf(g) {
+					if s, ok := in.(*ssa.Select); ok && !s.Blocking {
+						drains = true
+					}
+					if call, ok := in.(*ssa.Call); ok {
+						if h := call.Call.StaticCallee(); h != nil && h != f && h.Signature.Recv() != nil && c.isPkgType(h.Signature.Recv().Type(), "clientState") {
+							scan(h, d+1)
+						}
+					}
+				}
+			}
+		}
+		scan(fn, 0)
+		if !drains {
+			continue
+		}
+		// does it move the state as well (the release), or only drain (a helper)?
+		movesState := false
+		for _, g := range c.M.Reach(fn) {
+			_ = g
+		}
+		for f := range c.M.Reach(fn) {
+			for _, in := range instrsOf(f) {
+				if call, ok := in.(*ssa.Call); ok && atomicOn(call) == fBlocked && !strings.HasPrefix(fullCalleeName(call), "sync/atomic.Load") {
+					movesState = true
+				}
+			}
+		}
+		if !movesState {
+			continue
+		}
+		n++
+		key := fnName(fn) + ":resets-" + c.canonFieldName(flag)
+		// a store of 0 to the flag on every path from entry to return
+		isReset := func(in ssa.Instruction) bool {
+			call, ok := in.(*ssa.Call)
+			if !ok {
+				return false
+			}
+			if atomicOn(call) == flag && strings.HasPrefix(fullCalleeName(call), "sync/atomic.Store") {
+				if k, isC := constInt(call.Call.Args[len(call.Call.Args)-1]); isC && k == 0 {
+					return true
+				}
+			}
+			return false
+		}
+		_ = resets
+		cm := &CoverModel{m: c.M, mm: c.M.Muts(), isEvent: isReset, always: map[*ssa.Function]bool{}}
+		if cm.exitReachableWithoutE(fn, fn.Blocks[0], 0) {
+			c.S.Bad("R-C12-pending-reset", key, c.Pos(fn.Pos()), fmt.Sprintf("%s ends the capture without setting %s back to 0 on some path: an unblock request that arrives together with a timeout or a push leaves the flag set, and no later unblock request is ever posted to this connection", fnName(fn), flag.Name()))
+		} else {
+			c.S.OK("R-C12-pending-reset", key, c.Pos(fn.Pos()), "the pending flag is reset on every path of the release")
+		}
+	}
+	if n == 0 {
+		c.S.Undecided("R-C12-pending-reset", "release", "-", "no clientState method drains the mailbox and moves the capture state")
+	}
+}
+
+// ---------------------------------------------------------------- R-dict-iterate-modify
+
+const textIterModify = "R-dict-iterate-modify: inside a loop driven by an iterator over a dictionary, the same dictionary is neither removed from nor stored into: a removal can shrink (rehash) the table under the iterator, which then skips or repeats buckets — SINTER would return members it should have dropped"
+
+func ruleDictIterateModify(c *Ctx) {
+	c.S.Rule("R-dict-iterate-modify", textIterModify, 1)
+	mm := c.M.Muts()
+	n := 0
+	for _, fn := range c.SrcFuncs() {
+		k := 0
+		for _, in := range instrsOf(fn) {
+			mk, ok := in.(*ssa.Call)
+			if !ok {
+				continue
+			}
+			g := mk.Call.StaticCallee()
+			if g == nil || g.Signature.Recv() == nil || !c.isPkgType(g.Signature.Recv().Type(), "redisDict") || g.Signature.Results().Len() != 1 || len(mk.Call.Args) == 0 {
+				continue
+			}
+			// an iterator constructor: returns a (pointer to a) struct that is not the dictionary itself
+			rt := g.Signature.Results().At(0).Type()
+			if c.isPkgType(rt, "redisDict") {
+				continue
+			}
+			if _, isStruct := deref(rt).Underlying().(*types.Struct); !isStruct {
+				continue
+			}
+			dict := mk.Call.Args[0]
+			// the loop: blocks in a cycle that call a method on the iterator
+			loop := map[*ssa.BasicBlock]bool{}
+			for _, r := range referrers(mk) {
+				if call, ok := r.(*ssa.Call); ok && len(call.Call.Args) > 0 && call.Call.Args[0] == ssa.Value(mk) && blockInCycle(call.Block()) {
+					hb := call.Block()
+					for _, b := range fn.Blocks {
+						if plainReachAvoid(hb, b, nil) && plainReachAvoid(b, hb, nil) {
+							loop[b] = true
+						}
+					}
+				}
+			}
+			if len(loop) == 0 {
+				continue
+			}
+			k++
+			n++
+			key := fmt.Sprintf("%s:iteration#%d", fnName(fn), k)
+			bad := ""
+			for b := range loop {
+				for _, in2 := range b.Instrs {
+					call, ok := in2.(*ssa.Call)
+					if !ok || len(call.Call.Args) == 0 {
+						continue
+					}
+					h := call.Call.StaticCallee()
+					if h == nil || !(mm.dictStore[h] || mm.dictRem[h]) {
+						continue
+					}
+					if sameValue(call.Call.Args[0], dict) {
+						bad = c.Pos(call.Pos())
+					}
+				}
+			}
+			if bad != "" {
+				c.S.Bad("R-dict-iterate-modify", key, bad, fmt.Sprintf("%s changes the dictionary it is iterating over (at %s): a removal can rehash the table under the iterator, which then skips or repeats entries", fnName(fn), bad))
+			} else {
+				c.S.OK("R-dict-iterate-modify", key, c.Pos(mk.Pos()), "the iterated dictionary is not changed inside the loop")
+			}
+		}
+	}
+	if n == 0 {
+		c.S.Trivial("R-dict-iterate-modify", "none", "-", "no iterator loop over a dictionary")
 	}
 }
